@@ -113,13 +113,16 @@ TSeq == /\ Ev.e = "seq" /\ KeepPipe /\ KeepTrav /\ ~Ev.err /\ ~Ev.panic
 \*        "not yet at the maximum", and nobody is told so after having been told "at the maximum"
 \*   skiplimit{skip, limit, calls, offered, visited}: every call offers a collectable segment; the first skip of them are skipped,
 \*        then up to limit (0: no limit) are handed to the visitor - whatever the interleaving
+\* collected{n, nodes, paths}: after a complete free-running traversal the library's shared collectors hold every segment's node
+\* once and one path per expansion
+TCollected == /\ Ev.e = "collected" /\ KeepPipe /\ KeepTrav /\ Ev.nodes = Ev.n /\ Ev.paths = Ev.n
 TCounter == /\ Ev.e = "counter" /\ KeepPipe /\ KeepTrav
             /\ Ev.falses = (IF Ev.max < Ev.calls THEN Ev.max ELSE Ev.calls) /\ ~Ev.late_false
 TSkipLimit == /\ Ev.e = "skiplimit" /\ KeepPipe /\ KeepTrav /\ Ev.offered = Ev.calls
               /\ LET rest == IF Ev.calls > Ev.skip THEN Ev.calls - Ev.skip ELSE 0 IN
                  Ev.visited = (IF Ev.limit > 0 /\ Ev.limit < rest THEN Ev.limit ELSE rest)
 TNext == /\ l <= Len(TraceLog) /\ l' = l + 1
-         /\ (TPlan \/ TDStart \/ TDEnd \/ TCancel \/ TRet \/ TPipe \/ TPSend \/ TPRecv \/ TPClose \/ TPCancel \/ TPRClosed \/ TPDone \/ TIsCycle \/ TPaths \/ TSeq \/ TCounter \/ TSkipLimit)
+         /\ (TPlan \/ TDStart \/ TDEnd \/ TCancel \/ TRet \/ TPipe \/ TPSend \/ TPRecv \/ TPClose \/ TPCancel \/ TPRClosed \/ TPDone \/ TIsCycle \/ TPaths \/ TSeq \/ TCounter \/ TSkipLimit \/ TCollected)
 TSpec == TInit /\ [][TNext]_tvars
 HW == TLCSet(1, IF l > TLCGet(1) THEN l ELSE TLCGet(1))
 Accepted == IF TLCGet(1) = Len(TraceLog) + 1 THEN TRUE ELSE PrintT(<<"STUCK_AT_LINE", TLCGet(1)>>) /\ FALSE
